@@ -265,18 +265,19 @@ def step (R : Rules) (K : Nat → Kind) (n : Nat) (σ : State) : Op → State
     addCore R K n { σ with st := σ.st.set f s [t] } (f, s, t) false
   | .add f s t => addItem R K n σ f s t
   | .assign f s xs =>
-    -- `__set__`, container branch: `attr._clear()`, `_add_item` for every assigned element, then the elements that
+    -- `__set__`, container branch: `attr._clear()`, `_add_item` for every assigned element IN THE ORDER GIVEN,
+    -- repetitions included (the order decides which elements arrive by assertion and which by inference), then the elements that
     -- inference had put there are added again (their relations are still in the graph). What is lost are earlier
     -- ASSERTED elements: their relations stay although they left the field (no retraction, F-C15-3).
     let σ0 : State := { σ with st := σ.st.set f s [],
                                clob := σ.clob || (σ.st f s).any (fun t => !σ.inf.contains (f, s, t)) }
-    reAdd ((hashOrder xs).foldl (fun h t => addItem R K n h f s t) σ0) f s
+    reAdd (xs.foldl (fun h t => addItem R K n h f s t) σ0) f s
   | .churn => σ
   | .storeOnly f s t =>
     { σ with st := σ.st.set f s (match K f with | .single => [t] | k => storeAdd k (σ.st f s) t) }
   | .assignQ f s xs muted =>
     let σ0 : State := { σ with st := σ.st.set f s [], clob := σ.clob || !(σ.st f s).isEmpty }
-    (hashOrder xs).foldl (fun h t =>
+    xs.foldl (fun h t =>
       if muted.contains t then { h with st := h.st.set f s (storeAdd (K f) (h.st f s) t) }
       else addItem R K n h f s t) σ0
 
@@ -289,10 +290,10 @@ def runOps (R : Rules) (K : Nat → Kind) (n : Nat) (ops : List Op) : State :=
 def Op.facts : Op → List Fact
   | .set1 f s t => [(f, s, t)]
   | .add f s t => [(f, s, t)]
-  | .assign f s xs => (hashOrder xs).map fun t => (f, s, t)
+  | .assign f s xs => xs.map fun t => (f, s, t)
   | .churn => []
   | .storeOnly _ _ _ => []
-  | .assignQ f s xs muted => ((hashOrder xs).filter fun t => !muted.contains t).map fun t => (f, s, t)
+  | .assignQ f s xs muted => (xs.filter fun t => !muted.contains t).map fun t => (f, s, t)
 
 def asserted (ops : List Op) : List Fact := ops.flatMap Op.facts
 
